@@ -1,2 +1,24 @@
 import PieModel.Props.C20
-#print axioms PieModel.C20_placeholder
+
+#print axioms PieModel.C20_rolesInv_empty
+#print axioms PieModel.C20_rolesInv_wf
+#print axioms PieModel.C20_reach_rank
+#print axioms PieModel.C20_store_ops
+#print axioms PieModel.C20_read_ok
+#print axioms PieModel.C20_write_ok
+#print axioms PieModel.C20_reserve_ok
+#print axioms PieModel.C20_historyAborts_spec
+#print axioms PieModel.C20_static_topdown
+#print axioms PieModel.C20_static_no_abort_topdown
+#print axioms PieModel.C20_static_sessionRequire
+#print axioms PieModel.C20_static_scheduling
+#print axioms PieModel.C20_static_bottomup
+#print axioms PieModel.C20_static_no_abort_bottomup
+#print axioms PieModel.C20_static_runStep
+#print axioms PieModel.C20_static_history_inv
+#print axioms PieModel.C20_static_no_abort
+#print axioms PieModel.C20_static_no_abort_next
+#print axioms PieModel.C20_static_clean_agrees
+#print axioms PieModel.c20Body_wf
+#print axioms PieModel.tdRoles
+#print axioms PieModel.buRoles
